@@ -96,6 +96,19 @@ def run(ctx):
             for const in ([], [["c", "v"]]):
                 add([{"op": k, "as": "x", "opts": {"name": "m", "help": "h", "var": var, "const": const}}], "Err", "scalar-with-variable-labels", "%s built from options declaring variable labels %s" % (k, var))
         add([{"op": k, "as": "x", "opts": {"name": "m", "help": "h", "var": []}}], "Ok", "scalar-with-variable-labels", "%s built from options declaring no variable labels" % k)
+    # hand-built histogram and summary families with NaN / infinite / unordered / repeated bounds and quantiles in every position:
+    # unusual, not refused by anything the property names — Ok or Err, never a panic
+    nanv = [float("nan"), 1.0, float("inf"), float("-inf"), 0.0, -0.0]
+    for a in nanv:
+        for b in nanv:
+            for c3 in (None, float("nan"), 2.0):
+                bs = [[F(a), 1], [F(b), 2]] + ([[F(c3), 3]] if c3 is not None else [])
+                famh = {"name": "hb", "help": "h", "type": "HISTOGRAM", "metrics": [{"labels": [["l", "v"]], "hist": {"count": 3, "sum": F(1.0), "b": bs}}]}
+                fams = {"name": "sq", "help": "h", "type": "SUMMARY", "metrics": [{"labels": [], "summary": {"count": 3, "sum": F(a), "q": [[F(a), F(b)], [F(b), F(a)]]}}]}
+                for enc in ("text_encode", "pb_encode"):
+                    add([{"op": enc, "lit": [famh]}], "Any", "encoder:odd-bounds", "%s of a histogram with bucket bounds %s" % (enc, [a, b] + ([c3] if c3 is not None else [])))
+                    if c3 is None:
+                        add([{"op": enc, "lit": [fams]}], "Any", "encoder:odd-bounds", "%s of a summary with quantiles %s" % (enc, [a, b]))
     # families whose type number lies outside the enum (decoded from a newer producer's bytes; protobuf-backed model): unsupported
     # input — either encoder may refuse it, neither may panic
     for n in (5, 6, 127, -1, 2 ** 31 - 1):
